@@ -7,6 +7,7 @@ import (
 	"encoding/hex"
 	"errors"
 	"fmt"
+	"hash/fnv"
 	"io"
 	"log"
 	"math"
@@ -44,11 +45,23 @@ var vfRoots = []proto.Message{
 	&anypb.Any{}, &wrapperspb.BytesValue{}, &wrapperspb.StringValue{}, &wrapperspb.DoubleValue{}, &wrapperspb.Int64Value{}, &apipb.Api{}, &typepb.Type{},
 }
 
+// A case is a history of Marshal calls on ONE codec instance (the program registers a single codec for the
+// life of the process). Every step marshals the message object in slot Obj after giving it the content Wire:
+// a slot that already holds an object of the same type keeps the object (same pointer, content replaced in
+// place), so "the caller re-uses and edits a request" is part of the domain.
+type vfStep struct {
+	Obj  int    `json:"obj"`
+	Type string `json:"type"`
+	Wire string `json:"wireHex"` // standard encoding of the content (how the replay rebuilds it)
+	How  string `json:"how,omitempty"`
+}
+
 type vfCodecCase struct {
-	Property string `json:"property,omitempty"`
-	Type     string `json:"type"`
-	Wire     string `json:"wireHex"` // standard encoding of the generated message (how the replay rebuilds it)
-	Failure  string `json:"failure,omitempty"`
+	Property string   `json:"property,omitempty"`
+	Type     string   `json:"type,omitempty"`    // single-step form
+	Wire     string   `json:"wireHex,omitempty"` // single-step form
+	Steps    []vfStep `json:"steps,omitempty"`
+	Failure  string   `json:"failure,omitempty"`
 }
 
 // vfCrc32c is a bitwise, table-free reference (Castagnoli, reflected polynomial 0x82F63B78).
@@ -147,9 +160,14 @@ func vfStripChecksum(m proto.Message) int {
 	return n
 }
 
+func vfNewCodec() *myCodec { return &myCodec{protoCodec: encoding.GetCodec(grpcproto.Name)} }
+
 func vfCheckCodec(m proto.Message) (failure string, labels map[string]int) {
+	return vfCheckCodecWith(vfNewCodec(), m)
+}
+
+func vfCheckCodecWith(c *myCodec, m proto.Message) (failure string, labels map[string]int) {
 	labels = map[string]int{}
-	c := &myCodec{protoCodec: encoding.GetCodec(grpcproto.Name)}
 	orig := proto.Clone(m)
 	var out []byte
 	var err error
@@ -303,7 +321,16 @@ func vfGenScalar(rt *rapid.T, fd protoreflect.FieldDescriptor) protoreflect.Valu
 	case protoreflect.StringKind:
 		return protoreflect.ValueOfString(rapid.SampledFrom([]string{"", "a", "key", "ünï", "type.googleapis.com/google.protobuf.Value", "x\x00y"}).Draw(rt, "s"))
 	case protoreflect.BytesKind:
-		n := rapid.SampledFrom([]int{0, 1, 3, 17, 300, 70000, 70000, 1 << 21}).Draw(rt, "blen")
+		n := rapid.SampledFrom([]int{0, 1, 3, 17, 300}).Draw(rt, "blen")
+		if x := rapid.IntRange(0, 299).Draw(rt, "bigbytes"); x == 0 {
+			n = 1 << 21
+		} else if x < 20 {
+			n = 70000
+		}
+		if n > vfBytes {
+			n = 17
+		}
+		vfBytes -= n
 		b := make([]byte, n)
 		seed := byte(rapid.IntRange(0, 255).Draw(rt, "bseed"))
 		for i := range b {
@@ -314,9 +341,19 @@ func vfGenScalar(rt *rapid.T, fd protoreflect.FieldDescriptor) protoreflect.Valu
 	return protoreflect.Value{}
 }
 
+// vfBudget bounds the number of fields set per generated message (deep and wide at once would explode).
+var vfBudget int
+
+// vfBytes bounds the total size of the byte fields of one generated message.
+var vfBytes int
+
 func vfFillMsg(rt *rapid.T, m protoreflect.Message, depth int) {
 	fds := m.Descriptor().Fields()
 	for i := 0; i < fds.Len(); i++ {
+		if vfBudget <= 0 {
+			return
+		}
+		vfBudget--
 		fd := fds.Get(i)
 		if rapid.IntRange(0, 2).Draw(rt, "present") != 0 && (fd.Cardinality() != protoreflect.Required || rapid.IntRange(0, 9).Draw(rt, "dropRequired") == 0) {
 			continue
@@ -347,7 +384,11 @@ func vfFillMsg(rt *rapid.T, m protoreflect.Message, depth int) {
 			n := rapid.IntRange(0, 4).Draw(rt, "listlen")
 			if rapid.IntRange(0, 19).Draw(rt, "biglist") == 0 {
 				n = rapid.SampledFrom([]int{8, 8, 130, 300}).Draw(rt, "biglen")
+				if isMsg && vfBudget < 1500 {
+					n = 8
+				}
 			}
+			vfBudget -= n
 			for j := 0; j < n; j++ {
 				if isMsg {
 					v := l.NewElement()
@@ -386,7 +427,13 @@ func vfFillMsg(rt *rapid.T, m protoreflect.Message, depth int) {
 func vfGenMessage(rt *rapid.T) proto.Message {
 	root := rapid.SampledFrom(vfRoots).Draw(rt, "root")
 	m := root.ProtoReflect().New()
-	vfFillMsg(rt, m, rapid.IntRange(0, 5).Draw(rt, "depth"))
+	vfBudget = 3000
+	vfBytes = 3 << 20
+	depth := rapid.IntRange(0, 5).Draw(rt, "depth")
+	if rapid.IntRange(0, 29).Draw(rt, "deep") == 0 {
+		depth = rapid.SampledFrom([]int{9, 14}).Draw(rt, "depthdeep")
+	}
+	vfFillMsg(rt, m, depth)
 	return m.Interface()
 }
 
@@ -417,24 +464,197 @@ func vfCheckErrors() string {
 	return ""
 }
 
+func vfWireOf(m proto.Message) string {
+	std, _ := proto.MarshalOptions{Deterministic: true, AllowPartial: true}.Marshal(m)
+	return hex.EncodeToString(std)
+}
+
 func vfRunOne(m proto.Message) (*vfCodecCase, string, map[string]int) {
-	std, _ := proto.MarshalOptions{Deterministic: true}.Marshal(m)
-	c := &vfCodecCase{Type: string(m.ProtoReflect().Descriptor().FullName()), Wire: hex.EncodeToString(std)}
+	c := &vfCodecCase{Steps: []vfStep{{Type: string(m.ProtoReflect().Descriptor().FullName()), Wire: vfWireOf(m)}}}
 	f, l := vfCheckCodec(m)
 	return c, f, l
 }
 
-func vfFromCase(c *vfCodecCase) (proto.Message, error) {
-	mt, err := protoregistry.GlobalTypes.FindMessageByName(protoreflect.FullName(c.Type))
+func vfNewOf(typ string) (proto.Message, error) {
+	mt, err := protoregistry.GlobalTypes.FindMessageByName(protoreflect.FullName(typ))
 	if err != nil {
 		return nil, err
 	}
-	b, err := hex.DecodeString(c.Wire)
-	if err != nil {
-		return nil, err
+	return mt.New().Interface(), nil
+}
+
+// vfScalarSites lists the populated scalar positions of m that can be edited in place (singular fields and
+// list elements; maps are left alone because their iteration order is not defined), in descriptor order.
+type vfSite struct {
+	m   protoreflect.Message
+	fd  protoreflect.FieldDescriptor
+	idx int // -1: singular
+}
+
+func vfScalarSites(m protoreflect.Message, out []vfSite, depth int) []vfSite {
+	fds := m.Descriptor().Fields()
+	for i := 0; i < fds.Len() && len(out) < 4000; i++ {
+		fd := fds.Get(i)
+		if !m.Has(fd) || fd.IsMap() {
+			continue
+		}
+		switch {
+		case fd.IsList() && fd.Message() != nil:
+			l := m.Get(fd).List()
+			for k := 0; k < l.Len() && depth < 20; k++ {
+				out = vfScalarSites(l.Get(k).Message(), out, depth+1)
+			}
+		case fd.IsList():
+			for k := 0; k < m.Get(fd).List().Len(); k++ {
+				out = append(out, vfSite{m, fd, k})
+			}
+		case fd.Message() != nil:
+			if depth < 20 {
+				out = vfScalarSites(m.Get(fd).Message(), out, depth+1)
+			}
+		default:
+			out = append(out, vfSite{m, fd, -1})
+		}
 	}
-	m := mt.New().Interface()
-	return m, proto.Unmarshal(b, m)
+	return out
+}
+
+// vfEdit changes the value at the site to a different one, preferring a value whose encoding has the same
+// length (another bit pattern of a fixed-width number, a string or byte string of the same length).
+func vfEdit(s vfSite, salt byte) {
+	var v protoreflect.Value
+	if s.idx >= 0 {
+		v = s.m.Get(s.fd).List().Get(s.idx)
+	} else {
+		v = s.m.Get(s.fd)
+	}
+	var nv protoreflect.Value
+	switch s.fd.Kind() {
+	case protoreflect.BoolKind:
+		nv = protoreflect.ValueOfBool(!v.Bool())
+	case protoreflect.EnumKind:
+		nv = protoreflect.ValueOfEnum(v.Enum() ^ 1)
+	case protoreflect.Int32Kind, protoreflect.Sint32Kind, protoreflect.Sfixed32Kind:
+		nv = protoreflect.ValueOfInt32(int32(v.Int()) ^ (2 << (salt % 3)))
+	case protoreflect.Int64Kind, protoreflect.Sint64Kind, protoreflect.Sfixed64Kind:
+		nv = protoreflect.ValueOfInt64(v.Int() ^ (2 << (salt % 3)))
+	case protoreflect.Uint32Kind, protoreflect.Fixed32Kind:
+		nv = protoreflect.ValueOfUint32(uint32(v.Uint()) ^ (2 << (salt % 3)))
+	case protoreflect.Uint64Kind, protoreflect.Fixed64Kind:
+		nv = protoreflect.ValueOfUint64(v.Uint() ^ (2 << (salt % 3)))
+	case protoreflect.FloatKind:
+		nv = protoreflect.ValueOfFloat32(math.Float32frombits(math.Float32bits(float32(v.Float())) ^ (1 << (salt % 20))))
+	case protoreflect.DoubleKind:
+		nv = protoreflect.ValueOfFloat64(math.Float64frombits(math.Float64bits(v.Float()) ^ (1 << (salt % 50))))
+	case protoreflect.StringKind:
+		b := []byte(v.String())
+		for i := range b {
+			if b[i] < 0x80 { // keep it valid UTF-8: replace one ASCII character by another
+				b[i] = 'A' + (b[i]+1+salt%20)%26
+				break
+			}
+		}
+		if len(b) == 0 {
+			b = []byte("q")
+		}
+		nv = protoreflect.ValueOfString(string(b))
+	case protoreflect.BytesKind:
+		b := append([]byte{}, v.Bytes()...)
+		if len(b) == 0 {
+			b = []byte{salt}
+		} else {
+			b[int(salt)%len(b)] ^= 0x55
+		}
+		nv = protoreflect.ValueOfBytes(b)
+	default:
+		return
+	}
+	if s.idx >= 0 {
+		s.m.Get(s.fd).List().Set(s.idx, nv)
+	} else {
+		s.m.Set(s.fd, nv)
+	}
+}
+
+// vfRunHistory executes the steps on one codec instance; objects live in slots and are re-used in place.
+func vfRunHistory(c *vfCodecCase) (string, map[string]int, int) {
+	labels := map[string]int{}
+	steps := c.Steps
+	if len(steps) == 0 {
+		steps = []vfStep{{Type: c.Type, Wire: c.Wire}}
+	}
+	codec := vfNewCodec()
+	slots := map[int]proto.Message{}
+	for i, s := range steps {
+		b, err := hex.DecodeString(s.Wire)
+		if err != nil {
+			return "harness: " + err.Error(), labels, i
+		}
+		m := slots[s.Obj]
+		if m == nil || string(m.ProtoReflect().Descriptor().FullName()) != s.Type {
+			if m, err = vfNewOf(s.Type); err != nil {
+				return "harness: " + err.Error(), labels, i
+			}
+			slots[s.Obj] = m
+		} else {
+			labels["object-reused-in-place"]++
+			proto.Reset(m)
+		}
+		if err := (proto.UnmarshalOptions{AllowPartial: true}).Unmarshal(b, m); err != nil { // proto2 messages may lack required fields on purpose
+			return "harness: " + err.Error(), labels, i
+		}
+		f, l := vfCheckCodecWith(codec, m)
+		for k, v := range l {
+			labels[k] += v
+		}
+		if f != "" {
+			return fmt.Sprintf("call #%d on the same codec (%s, slot %d, %s): %s", i+1, s.Type, s.Obj, s.How, f), labels, i
+		}
+	}
+	return "", labels, len(steps)
+}
+
+// vfGenHistory draws a history: fresh messages, unchanged re-marshals, in-place edits of an object marshalled
+// earlier (mostly same-size edits), several live objects interleaved.
+func vfGenHistory(rt *rapid.T) *vfCodecCase {
+	c := &vfCodecCase{}
+	live := map[int]proto.Message{}
+	n := 1
+	if rapid.IntRange(0, 2).Draw(rt, "multi") == 0 {
+		n = rapid.IntRange(2, 6).Draw(rt, "steps")
+	}
+	for i := 0; i < n; i++ {
+		slot := rapid.IntRange(0, 2).Draw(rt, "slot")
+		m := live[slot]
+		how := "fresh"
+		kind := rapid.IntRange(0, 5).Draw(rt, "kind")
+		switch {
+		case m == nil || kind == 0:
+			m = vfGenMessage(rt)
+			live[slot] = m
+		case kind == 1:
+			how = "unchanged"
+		default:
+			sites := vfScalarSites(m.ProtoReflect(), nil, 0)
+			if len(sites) == 0 {
+				m = vfGenMessage(rt)
+				live[slot] = m
+				break
+			}
+			before := proto.Size(m)
+			k := rapid.IntRange(1, 2).Draw(rt, "nedits")
+			for e := 0; e < k; e++ {
+				vfEdit(sites[rapid.IntRange(0, len(sites)-1).Draw(rt, "site")], byte(rapid.IntRange(0, 255).Draw(rt, "salt")))
+			}
+			if proto.Size(m) == before {
+				how = "edited-in-place-same-size"
+			} else {
+				how = "edited-in-place-other-size"
+			}
+		}
+		c.Steps = append(c.Steps, vfStep{Obj: slot, Type: string(m.ProtoReflect().Descriptor().FullName()), Wire: vfWireOf(m), How: how})
+	}
+	return c
 }
 
 func TestC19(t *testing.T) {
@@ -444,23 +664,20 @@ func TestC19(t *testing.T) {
 		if err := hx.Load(p, &c); err != nil {
 			t.Fatal(err)
 		}
-		m, err := vfFromCase(&c)
-		if err != nil {
-			t.Fatalf("%s: %v", p, err)
-		}
-		cc, f, l := vfRunOne(m)
+		c.Failure = ""
+		f, l, _ := vfRunHistory(&c)
 		for _, r := range vfRoots {
-			// later Marshal calls must not disturb the output of the replayed one
+			// later Marshal calls must not disturb the outputs of the replayed ones
 			if f == "" {
 				_, f, _ = vfRunOne(r.ProtoReflect().New().Interface())
 			}
 		}
 		if f != "" {
-			cc.Failure, cc.Property = f, "C19"
-			hx.WriteReplay("C19", cc)
+			c.Failure, c.Property = f, "C19"
+			hx.WriteReplay("C19", &c)
 			t.Fatalf("%s: %s", p, f)
 		}
-		st.Case(1, l, true, cc)
+		st.Case(1, l, true, &c)
 	}
 	if p := hx.ReplayIn(); p != "" {
 		replay(p)
@@ -481,17 +698,43 @@ func TestC19(t *testing.T) {
 		st.AddCases(1)
 	}
 	rapid.Check(t, func(rt *rapid.T) {
-		m := vfGenMessage(rt)
-		c, f, l := vfRunOne(m)
+		c := vfGenHistory(rt)
+		f, l, at := vfRunHistory(c)
 		if f != "" {
 			st.Failed()
+			c.Steps = c.Steps[:at+1]
 			c.Failure, c.Property = f, "C19"
 			hx.WriteReplay("C19", c)
-			rt.Fatalf("%s: %s", c.Type, f)
+			rt.Fatalf("%s", f)
 		}
-		l["type-"+c.Type]++
-		st.Case(1, l, len(c.Wire) > 8, c)
+		nontriv := false
+		for _, s := range c.Steps {
+			l["type-"+s.Type]++
+			l["step-"+s.How]++
+			if len(s.Wire) > 8 {
+				nontriv = true
+			}
+		}
+		if len(c.Steps) > 1 {
+			l["history-of-several-calls"]++
+		}
+		st.Case(len(c.Steps), l, nontriv, vfSampleOf(c))
 	})
+}
+
+// vfSampleOf abbreviates very long encodings in the evidence samples (the replay file keeps them whole).
+func vfSampleOf(c *vfCodecCase) *vfCodecCase {
+	cc := *c
+	cc.Steps = nil
+	for _, s := range c.Steps {
+		if len(s.Wire) > 400 {
+			h := fnv.New64a()
+			h.Write([]byte(s.Wire))
+			s.Wire = s.Wire[:400] + fmt.Sprintf("...(%d hex digits, FNV-1a %016x)", len(s.Wire), h.Sum64())
+		}
+		cc.Steps = append(cc.Steps, s)
+	}
+	return &cc
 }
 
 // FuzzC19 decodes arbitrary bytes into a drawn root type and runs the same oracle (thorough tier).
